@@ -41,7 +41,7 @@ def reader_hdefs(tier):
 
 def run_reader(out):
     hs = reader_hdefs(out.tier)
-    run_k(out, "c01", "parser", hs, jobs=14, harness_timeout=900, overall_timeout=1800 if out.tier == "quick" else 4 * 3600, mem_gb=12)
+    run_k(out, "c01", "parser", hs, jobs=14, harness_timeout=900, overall_timeout=3600 if out.tier == "quick" else 4 * 3600, mem_gb=12)
 
 
 # ---------------------------------------------------------------------------------------------
